@@ -60,7 +60,21 @@ fn c03_layout_independence() {
           d.recs.push(IndexRec { hash: chain[h as usize].hash(), version: 0x2000_0000, height: base_h + h, status: ST_ACTIVE, ntx: 1, file: 16512 + h, offset: off }); }
       d.write();
       let got = fetch(d.path(), "bitcoin", 0, None, false, &(base_h..base_h + 6).collect::<Vec<_>>());
-      cmp_delivery(suite, "C03:core_varint_decoded_exactly", "heights 3000000.., files 16512.., offsets up to 200008", got, &want); }
+      cmp_delivery(suite, "C03:core_varint_decoded_exactly", "heights 3000000.., files 16512.., offsets up to 200008", got, &want);
+      // the same directory walked the way the driver does: an index that does not start at height 0 (pruned node / copied
+      // tail), --start inside it; the tip is the highest recorded height, not the number of records
+      cases += 1;
+      let ev = drive(d.path(), "bitcoin", base_h + 1, None, false);
+      let wantev: Vec<String> = std::iter::once(format!("S{}", base_h + 1)).chain((1..6u64).map(|i| format!("B{}:{}", base_h + i, short(&want[i as usize])))).chain(std::iter::once(format!("C{}", base_h + 5))).collect();
+      let gotev: Vec<String> = match &ev { Ok(v) => v.iter().map(|e| match e { Event::Start(h) => format!("S{}", h), Event::Block(h, x) => format!("B{}:{}", h, short(x)), Event::Complete(h) => format!("C{}", h) }).collect(), Err(m) => vec![format!("ERR {}", m)] };
+      check(gotev == wantev, suite, "C03:block_comes_from_file_and_offset_of_its_index_record", "index holding only heights 3000000..=3000005, --start 3000001", &format!("{:?}", gotev), &format!("{:?}", wantev)); }
+    // (e) the layouts (a) and (b) again in an XOR-obfuscated directory (Core 28+): offsets of every residue mod the key length
+    for key in [vec![0x5au8, 0x01, 0xc3, 0x7e, 0x99, 0x10, 0xe4, 0x2b], vec![0xa1, 0x3c, 0x5e, 0x77, 0x09, 0xd2, 0x4b, 0xa1]] {
+      cases += 1; let mut d = DataDir::new();
+      for h in (0..6u64).rev() { let gl = 1 + rng.below(9) as usize; let g = rng.bytes(gl); let off = d.put_block(h % 2, 0xd9b4bef9, &chain[h as usize].ser(), &g);
+          d.recs.push(IndexRec { hash: chain[h as usize].hash(), version: 1, height: h, status: ST_ACTIVE, ntx: 1, file: h % 2, offset: off }); }
+      d.xor_key = Some(key.clone());
+      d.write(); cmp_delivery(suite, "C03:block_comes_from_file_and_offset_of_its_index_record", &format!("reverse order over two files with 1..9 byte gaps, xor.dat = {}", hex(&key)), fetch_all(&d, "bitcoin", 6, false), &want); }
     finish(suite, cases);
 }
 
@@ -142,7 +156,16 @@ fn c09_verify_accepts_consistent_chains() {
     counts.extend([31, 32, 33, 63, 64, 65, 100, 127, 128, 129, 255, 256, 257, 258, 259, 260, 263, 264, 265, 273, 280, 300]);
     if thorough { counts.extend([511, 512, 513, 520, 600, 696, 700, 1000, 1023, 1024, 1025]); }
     // genesis must hash to the coin's genesis: use verification from height 1 on (index keeps height 0)
-    let chain = chain_with_txcounts(&counts);
+    let mut chain = chain_with_txcounts(&counts);
+    // script lengths and in/out counts on both sides of every CompactSize width boundary: the txid (merkle leaf) must be the
+    // hash of the bytes on disk
+    for (i, l) in [252usize, 253, 254, 255, 256, 520, 0xffff, 0x10000].iter().enumerate() {
+        let b = &mut chain[2 + i];
+        b.txs.push(TxSpec::new(vec![TxIn::new([0x70 + i as u8; 32], 1, vec![0x51; *l])], vec![TxOut::new(3, vec![0x6a; *l])]));
+        if *l <= 256 { b.txs.push(TxSpec::new((0..*l).map(|k| TxIn::new([0x60 + i as u8; 32], k as u32, vec![])).collect(), (0..*l).map(|k| TxOut::new(k as u64, vec![0x51])).collect())); }
+    }
+    relink(&mut chain);
+    let counts: Vec<usize> = chain.iter().map(|b| b.txs.len()).collect();
     let d = simple_dir(&chain); d.write();
     let hs: Vec<u64> = (1..chain.len() as u64).collect();
     let mut cases = 0;
@@ -249,6 +272,9 @@ fn c11_xor_directories() {
     let mut keys: Vec<Vec<u8>> = (1..=9).map(|n| rng.bytes(n)).collect();
     keys.push(rng.bytes(16)); keys.push(rng.bytes(64)); keys.push(vec![0u8; 8]); keys.push(vec![0xff]);
     keys.push(vec![0x5a, 0x5a]); keys.push(vec![0xde, 0xad, 0xbe, 0xef, 0xde, 0xad, 0xbe, 0xef]); keys.push(vec![1, 2, 3]); keys.push(vec![0x11, 0x22, 0x33, 0x44, 0x55, 0x66, 0x77, 0x00]);
+    // keys that look periodic without being so (a suffix equals a prefix, the period does not divide the length)
+    keys.push(vec![0xa1, 0x3c, 0x5e, 0x77, 0x09, 0xd2, 0x4b, 0xa1]); keys.push(vec![0x5a, 0xc3, 0x5a]); keys.push(vec![0x11, 0x22, 0x33, 0x11, 0x22]);
+    keys.push(vec![7, 7, 7, 7, 7, 7, 7, 8]); keys.push(vec![0xab, 0xcd, 0xab, 0xcd, 0xab, 0xcd, 0xab, 0xcd]);
     let mut cases = 0;
     for k in keys { for layout in 0..2 {
         cases += 1;
